@@ -108,7 +108,7 @@ PROPS = {
         modules=["Caches.Properties.C12"],
         suites=[s(c, 80, 2500) for c in ALL5] + [s("putresult", 1, 1, 0)],
         fields={"result", "state", "panic"},
-        only_ops={"put", "putprotected", "peekorput", "peekmutorput", "containsorput", "preq", "prclone"},
+        only_ops={"put", "putprotected", "peekorput", "peekmutorput", "containsorput", "preq", "preqself", "prclone"},
         monitor="C12",
         design="6/C12",
     ),
@@ -149,7 +149,9 @@ PROPS = {
     "C17": dict(
         title="Independence of hasher, collisions, addresses",
         modules=["Caches.Properties.C17"],
-        suites=[s("rawlru", 40, 800, clone=10, bigcap=1, resize=4), s("slru", 24, 600, clone=10), s("twoq", 20, 600), s("arc", 20, 600), s("wtinylfu", 20, 600)],
+        suites=[s("rawlru", 40, 800, clone=10, bigcap=1, resize=4), s("slru", 24, 600, clone=10), s("twoq", 20, 600), s("arc", 20, 600), s("wtinylfu", 20, 600),
+                # lists of 15-40 entries and long histories: hash tables with several probe groups, tombstones, growth
+                s("slru", 5, 60, 1500, big=1), s("twoq", 5, 60, 1500, big=1), s("arc", 3, 40, 1500, big=1)],
         # the order in which the eviction callback is notified is behaviour too (`cb`): purge / resize must not walk the hash map
         fields={"result", "state", "panic", "cb"},
         monitor="C17",
